@@ -435,7 +435,17 @@ void h_refused_unknown(void)
 
     /* the same unknown in an acceptable standard: registered once, first index */
     ghost_err_reset();
-    rc = vnacal_new_add_double_reflect_m(vnp, m, 2, 2, u, VNACAL_OPEN, 1, 2);
+    {
+	/* either order: the unknown may be the parameter registered LAST before the next refusal, or not */
+	IN(bool, unknown_last);
+
+	if (unknown_last) {
+	    REACH("unknown registered last");
+	    rc = vnacal_new_add_double_reflect_m(vnp, m, 2, 2, VNACAL_OPEN, u, 1, 2);
+	} else {
+	    rc = vnacal_new_add_double_reflect_m(vnp, m, 2, 2, u, VNACAL_OPEN, 1, 2);
+	}
+    }
     REACH("accepted double reflect returned");
     CHECK(rc == 0 && ghost_err_calls == 0, "the corrected call is accepted silently");
     CHECK(vnp->vn_unknown_parameters == 1 && vnp->vn_unknown_parameter_list != NULL &&
